@@ -29,7 +29,14 @@ def evaluate(prop, repo, tier='quick'):
     """Run the property's rules against a Repo; returns the Ctx (violations not yet triaged)."""
     mod = rule_module(prop)
     ctx = report.Ctx(prop, repo, tier)
-    mod.run(ctx)
+    try:
+        mod.run(ctx)
+    except AnalysisError as e:
+        if not ctx.violations:
+            raise
+        # violations already established stand; the rest of the rules could not be evaluated
+        ctx.notes['analysis_error_after_violations'] = str(e)
+        print('NOTE property=%s: remaining rules not evaluated (%s)' % (prop, e))
     if not ctx.violations:
         # a tree that violates a rule may legitimately show fewer instances of the others
         ctx.enforce_floors(mod.META.get('floors', {}))
